@@ -73,6 +73,23 @@ type Msg struct {
 	Addr  uintptr
 	Arg   uint64
 	Reply chan uint64 // nil: the goroutine does not wait for an answer
+	Ch    any         // channel operations: the channel itself (the scheduler reads len/cap and keeps it alive)
+	// KSelectPre: the communication cases in source order. An array inside the
+	// message, not a slice: the scheduler must not read memory the worker wrote
+	// outside the message (no happens-before edge exists between them by design).
+	Cases  [MaxSelCases]SelCase
+	NCases int
+	Deflt  bool // the select has a default clause
+}
+
+// MaxSelCases is the largest select the scheduler models; a larger one runs as written.
+const MaxSelCases = 12
+
+// SelCase is one communication clause of a select statement.
+type SelCase struct {
+	Send bool
+	Ch   any
+	Addr uintptr
 }
 
 // Sim is the attachment point. Q must be a buffered channel created inside
@@ -107,16 +124,26 @@ func Goid() uint64 {
 }
 
 func park(k Kind, site int32, addr uintptr, arg uint64) uint64 {
+	return parkMsg(Msg{Kind: k, Site: site, Addr: addr, Arg: arg})
+}
+
+func parkMsg(m Msg) uint64 {
 	s := cur
 	if s == nil {
 		return 0
 	}
 	raceDisable()
 	ch := make(chan uint64, 1)
-	s.Q <- Msg{Kind: k, Goid: Goid(), Site: site, Addr: addr, Arg: arg, Reply: ch}
+	m.Goid = Goid()
+	m.Reply = ch
+	s.Q <- m
 	v := <-ch
 	raceEnable()
 	return v
+}
+
+func parkCh(k Kind, site int32, ch any) uint64 {
+	return parkMsg(Msg{Kind: k, Site: site, Addr: addrOf(ch), Ch: ch})
 }
 
 func post(k Kind, site int32, addr uintptr, arg uint64) {
@@ -159,19 +186,25 @@ func Start(tok uint64, site int32) {
 
 // ---- channels ----
 
-func PreSend(ch any, site int32)   { park(KSendPre, site, addrOf(ch), 0) }
-func PostSend(ch any, site int32)  { park(KSendPost, site, addrOf(ch), 0) }
-func PreClose(ch any, site int32)  { park(KClosePre, site, addrOf(ch), 0) }
-func PostClose(ch any, site int32) { park(KClosePost, site, addrOf(ch), 0) }
+// The scheduler models every channel (buffer occupancy read from the channel
+// itself, closedness and waiting partners from the hooks) and releases a
+// goroutine into a channel operation only when that operation cannot block:
+// both parties of a rendezvous are released together. So no simulated
+// goroutine ever blocks inside a real channel operation, which also makes
+// channels created outside the synctest bubble (package-level semaphores,
+// "ready" channels built in init) work.
+func PreSend(ch any, site int32)   { parkCh(KSendPre, site, ch) }
+func PostSend(ch any, site int32)  { parkCh(KSendPost, site, ch) }
+func PreClose(ch any, site int32)  { parkCh(KClosePre, site, ch) }
+func PostClose(ch any, site int32) { parkCh(KClosePost, site, ch) }
 
 func Recv[T any](ch <-chan T, site int32) T {
 	if cur == nil {
 		return <-ch
 	}
-	a := addrOf(ch)
-	park(KRecvPre, site, a, 0)
+	parkCh(KRecvPre, site, ch)
 	v := <-ch
-	park(KRecvPost, site, a, 0)
+	parkCh(KRecvPost, site, ch)
 	return v
 }
 
@@ -180,14 +213,13 @@ func Recv2[T any](ch <-chan T, site int32) (T, bool) {
 		v, ok := <-ch
 		return v, ok
 	}
-	a := addrOf(ch)
-	park(KRecvPre, site, a, 0)
+	parkCh(KRecvPre, site, ch)
 	v, ok := <-ch
 	var c uint64
 	if !ok {
 		c = 1
 	}
-	park(KRecvPost, site, a, c)
+	parkMsg(Msg{Kind: KRecvPost, Site: site, Addr: addrOf(ch), Arg: c, Ch: ch})
 	return v, ok
 }
 
@@ -206,6 +238,30 @@ func RangeChan[T any](ch <-chan T, site int32) iter.Seq[T] {
 }
 
 // ---- select ----
+
+// SendCase / RecvCase describe the clauses of a select for Select.
+func SendCase(ch any) SelCase { return SelCase{Send: true, Ch: ch, Addr: addrOf(ch)} }
+func RecvCase(ch any) SelCase { return SelCase{Ch: ch, Addr: addrOf(ch)} }
+
+// Select replaces the runtime's choice among the clauses of a select
+// statement: the scheduler waits until at least one clause can proceed (or
+// takes default), picks one from its seeded PRNG and returns its index (-1:
+// default). The instrumented code then performs just that one operation,
+// which is guaranteed not to block. Without a simulator it returns -2 and the
+// caller runs the original select.
+func Select(site int32, deflt bool, cases ...SelCase) int {
+	if cur == nil {
+		return -2
+	}
+	if len(cases) > MaxSelCases {
+		park(KSyncPre, site, 0, 0)
+		return -2
+	}
+	m := Msg{Kind: KSelectPre, Site: site, NCases: len(cases), Deflt: deflt}
+	copy(m.Cases[:], cases)
+	v := parkMsg(m)
+	return int(int64(v))
+}
 
 func PreSelect(site int32)  { park(KSelectPre, site, 0, 0) }
 func PostSelect(site int32) { park(KSelectPost, site, 0, 0) }
